@@ -104,7 +104,7 @@ Proof.
   apply wbind_inv in H2 as [(u & w2 & H1 & H2) | (e & H1 & _)]; [|discriminate H1].
   unfold wput in H1. injection H1 as <- <-.
   revert H2. match goal with |- ?k ?ww = _ -> _ => assert (shp w0 k) as K by sh_go; intros H2; apply (K _ _ _) in H2; [exact H2|] end.
-  destruct F as (F & G). split; [intros j y Hy; exact (F _ _ Hy)|intros j Hj; exact (G j Hj)].
+  destruct F as (F & G & Nx). split; [intros j y Hy; exact (F _ _ Hy)|split; [intros j Hj; exact (G j Hj)|exact Nx]].
 Qed.
 Lemma shp_set_file_membership e fm : shp w0 (set_file_membership T e fm).
 Proof. unfold set_file_membership. sh_go. Qed.
